@@ -425,23 +425,54 @@ func c12Err(err error) string {
 
 const c12Sentinel = -1
 
-// c12Bounded runs f and gives up after a few seconds (a changed wheel may block a public method or the
-// ticker forever); a panic of f is re-raised in the caller so that verifh records it.
-func c12Bounded(f func()) bool {
-	done := make(chan any, 1)
+// c12Worker runs the calls of one section on one long-lived goroutine and gives up on a call after a few
+// seconds (a changed wheel may block a public method or the ticker forever). No goroutine is created per
+// call, so the goroutine count used to join the wheel's callback goroutines stays exact. A panic of the
+// call is re-raised in the caller so that verifh records it.
+type c12Worker struct {
+	req chan func()
+	res chan any
+}
+
+func newC12Worker() *c12Worker {
+	w := &c12Worker{req: make(chan func()), res: make(chan any, 1)}
 	go func() {
-		defer func() { done <- recover() }()
-		f()
+		for f := range w.req {
+			func() {
+				defer func() { w.res <- recover() }()
+				f()
+			}()
+		}
 	}()
+	return w
+}
+
+func (w *c12Worker) do(f func()) bool {
+	w.req <- f
+	t := time.NewTimer(3 * time.Second)
+	defer t.Stop()
 	select {
-	case p := <-done:
+	case p := <-w.res:
 		if p != nil {
 			panic(p)
 		}
 		return true
-	case <-time.After(3 * time.Second):
+	case <-t.C:
 		return false
 	}
+}
+
+// c12Base is the number of goroutines at rest: the minimum over a few scheduler rounds, so that a goroutine
+// that is just exiting is not counted.
+func c12Base() int {
+	base := runtime.NumGoroutine()
+	for i := 0; i < 50; i++ {
+		runtime.Gosched()
+		if n := runtime.NumGoroutine(); n < base {
+			base = n
+		}
+	}
+	return base
 }
 
 // TestVerifC12WB: white box. The wheel is built by the real constructor, its run loop is stopped, and the
@@ -452,7 +483,7 @@ func TestVerifC12WB(t *testing.T) {
 		n := cfg.Int("n", 1)
 		interval := time.Duration(cfg.Int("interval", 1))
 		sink := &c12Sink{}
-		before := runtime.NumGoroutine()
+		before := c12Base()
 		tw, err := NewTimingWheelWithTicker(interval, n, sink.exec, &c12Ticker{c: make(chan time.Time)})
 		if err != nil {
 			panic(err)
@@ -461,7 +492,7 @@ func TestVerifC12WB(t *testing.T) {
 		if !verifh.SettleGoroutines(before, 5*time.Second) {
 			panic("run loop did not return after Stop")
 		}
-		base := runtime.NumGoroutine()
+		base := c12Base()
 		step := func(op []string) string {
 			switch op[0] {
 			case "set":
@@ -516,6 +547,8 @@ func TestVerifC12(t *testing.T) {
 			syncT = &c12Ticker{c: make(chan time.Time)}
 			ticker = syncT
 		}
+		before := c12Base()
+		worker := newC12Worker()
 		tw, err := NewTimingWheelWithTicker(interval, n, sink.exec, ticker)
 		if err != nil {
 			panic(err)
@@ -524,7 +557,7 @@ func TestVerifC12(t *testing.T) {
 		hung := false // a call did not return: the rest of the section is not executed
 		waitLoop := func() {
 			// the event loop is single-threaded: once it accepts this no-op, the previous request is done
-			if !c12Bounded(func() {
+			if !worker.do(func() {
 				if err := tw.RemoveTimer(c12Sentinel); err != nil && err != ErrClosed {
 					panic(err)
 				}
@@ -533,7 +566,7 @@ func TestVerifC12(t *testing.T) {
 			}
 		}
 		waitLoop()
-		base := runtime.NumGoroutine()
+		base := c12Base()
 		stops := func() int32 {
 			if fakeT != nil {
 				return atomic.LoadInt32(&fakeT.stops)
@@ -570,7 +603,7 @@ func TestVerifC12(t *testing.T) {
 				return true, ""
 			}
 			if !stopped {
-				if !c12Bounded(func() { syncT.c <- time.Time{} }) {
+				if !worker.do(func() { syncT.c <- time.Time{} }) {
 					hung = true
 					return false, "TIMEOUT-tick"
 				}
@@ -592,7 +625,7 @@ func TestVerifC12(t *testing.T) {
 			}
 			var err error
 			call := func(f func() error) {
-				if !c12Bounded(func() { err = f() }) {
+				if !worker.do(func() { err = f() }) {
 					hung = true
 				}
 			}
@@ -637,7 +670,10 @@ func TestVerifC12(t *testing.T) {
 			if !stopped {
 				tw.Stop()
 			}
-			verifh.SettleGoroutines(base-1, time.Second)
+			if !hung {
+				close(worker.req)
+			}
+			verifh.SettleGoroutines(before, 2*time.Second)
 		}
 	})
 }
@@ -650,7 +686,7 @@ func c12CtorStep(op []string) string {
 	if op[3] == "0" {
 		exec = func(k, v any) {}
 	}
-	before := runtime.NumGoroutine()
+	before := c12Base()
 	tw, err := NewTimingWheel(time.Duration(verifh.Atoi(op[1])), verifh.Atoi(op[2]), exec)
 	if err != nil {
 		if tw != nil {
